@@ -573,7 +573,16 @@ async fn client(sc: Arc<FScn>, w: W, f: ActorRef<FactoryMessage<u64, HMsg>>, ops
                 let payload = JobMsg { id, beh, yields: 0, sleep_ms, tries: 0 };
                 let mut job = RetriableMessage::from_job(Job::with_options(key, payload, JobOptions::new(ttl.map(Duration::from_millis))), MessageRetryStrategy::Count(retries), f.clone());
                 job.msg.set_retry_hook(move |_k: &u64| obs("obs.retry", 0, vec![kvi("id", id)]));
-                let ok = f.dispatch_job(job).is_ok();
+                let ok = match f.dispatch_job(job) {
+                    Ok(()) => true,
+                    Err(e) => {
+                        // the factory is gone: the job comes back in the error; disarm it, or dropping it here would fire the hook
+                        if let ractor::MessagingErr::SendErr(FactoryMessage::Dispatch(mut j)) = *e {
+                            j.msg.completed();
+                        }
+                        false
+                    }
+                };
                 let nd = sc.prioq && sc.nd_keys.contains(&key);
                 obs(
                     "obs.submit",
@@ -867,6 +876,35 @@ pub fn factory_micro(which: &str) -> Vec<FScn> {
             v.push(s);
         }
     }
+    if all || which == "retry" {
+        let rj = |id: i64, key: u64, retries: usize, beh: Beh, sleep_ms: u64, ttl: Option<u64>| COp::SubmitRetriable { id, key, ttl, retries, beh, sleep_ms };
+        // a worker dies mid-job: the job comes back while retries remain (PanicFirst succeeds the second time, Panic / KillMid
+        // use their retries up and are then lost with the worker; a completed job is never seen again)
+        for r in [Routing::Queuer, Routing::KeyP, Routing::Sticky] {
+            let mut s = base_scn(r, 2);
+            s.clients = vec![vec![rj(1, 1, 2, Beh::PanicFirst, 5, None), rj(2, 2, 1, Beh::Panic, 0, None), sub(3, 1), rj(4, 1, 1, Beh::Ok, 0, None), rj(5, 2, 2, Beh::KillMid, 3, None),
+                                  rj(6, 1, 1, Beh::KillAfter, 0, None), COp::Sleep(20), rj(7, 2, 1, Beh::Err, 0, None)]];
+            v.push(s);
+        }
+        // shed jobs re-submit themselves (the documented caveat): newest / oldest, factory queue and worker queue
+        for (r, newest) in [(Routing::Queuer, true), (Routing::Queuer, false), (Routing::KeyP, true), (Routing::KeyP, false)] {
+            let mut s = base_scn(r, 1);
+            s.limit = Some((1, newest));
+            s.clients = vec![vec![job(1, 1, Beh::Ok, 20, false, None), rj(2, 1, 2, Beh::Ok, 0, None), rj(3, 1, 2, Beh::Ok, 0, None), sub(4, 1), COp::Sleep(30), rj(5, 1, 1, Beh::Ok, 0, None)]];
+            v.push(s);
+        }
+        // TTL: an expired job does not retry; rate limit and drain refusals do
+        let mut s = base_scn(Routing::Queuer, 1);
+        s.rl = Some((1, 50, 1, 1));
+        s.clients = vec![vec![rj(1, 1, 1, Beh::Panic, 20, Some(10)), rj(2, 1, 2, Beh::Ok, 0, None), rj(3, 2, 1, Beh::Ok, 0, Some(500)), COp::Sleep(60), rj(4, 1, 3, Beh::PanicFirst, 0, None)]];
+        v.push(s);
+        for r in [Routing::Queuer, Routing::KeyP] {
+            let mut s = base_scn(r, 1);
+            s.limit = Some((2, false));
+            s.clients = vec![vec![rj(1, 1, 1, Beh::Ok, 15, None), rj(2, 1, 2, Beh::Ok, 5, None), rj(3, 2, 1, Beh::Ok, 0, None), COp::Sleep(3), COp::Drain, rj(4, 1, 2, Beh::Ok, 0, None), rj(5, 2, 1, Beh::Ok, 0, None)]];
+            v.push(s);
+        }
+    }
     if all || which == "closing" {
         // a worker reports completion and stops itself; while its post_stop runs it is closed for messages but the
         // factory has not been told.  Jobs dispatched to its slot in that window are parked for the replacement.
@@ -1100,6 +1138,55 @@ pub fn rand_shrink_drain(rng: &mut Rng) -> FScn {
     s
 }
 
+/// Random scenarios whose jobs are mostly retriable
+pub fn rand_retry(rng: &mut Rng) -> FScn {
+    let routing = [Routing::Queuer, Routing::Sticky, Routing::KeyP, Routing::RoundRobin, Routing::Custom][rng.below(5)];
+    let mut s = base_scn(routing, 1 + rng.below(3));
+    if rng.chance(1, 3) {
+        s.limit = Some((rng.below(3), rng.chance(1, 2)));
+    }
+    if rng.chance(1, 5) {
+        s.rl = Some((1, [20u64, 40][rng.below(2)], 1 + rng.below(2), rng.below(2)));
+    }
+    s.chash = [rng.next() % 1000, rng.next(), rng.next() % 7];
+    s.horizon_ms = 350;
+    let nkeys = 1 + rng.below(3);
+    let njobs = 3 + rng.below(6);
+    let mut c0 = vec![];
+    for id in 1..=njobs as i64 {
+        let beh = match rng.below(12) {
+            0 | 1 => Beh::PanicFirst,
+            2 => Beh::Panic,
+            3 => Beh::KillMid,
+            4 => Beh::KillAfter,
+            5 => Beh::Err,
+            6 => Beh::StopAfter,
+            _ => Beh::Ok,
+        };
+        let ttl = if rng.chance(1, 6) { Some([5u64, 20, 200][rng.below(3)]) } else { None };
+        if rng.chance(3, 4) {
+            c0.push(COp::SubmitRetriable { id, key: KEYS[rng.below(nkeys)], ttl, retries: rng.below(3), beh, sleep_ms: [0u64, 0, 5, 10, 30][rng.below(5)] });
+        } else {
+            c0.push(COp::Submit { id, key: KEYS[rng.below(nkeys)], ttl, port: rng.chance(1, 2), beh: if beh == Beh::PanicFirst { Beh::Panic } else { beh }, yields: 0, sleep_ms: [0u64, 5, 10][rng.below(3)] });
+        }
+        if rng.chance(1, 5) {
+            c0.push(COp::Sleep([1u64, 5, 15][rng.below(3)]));
+        }
+    }
+    let mut c1 = vec![];
+    for _ in 0..rng.below(3) {
+        c1.push(COp::Sleep([1u64, 5, 15, 40][rng.below(4)]));
+        c1.push(match rng.below(5) {
+            0 | 1 => COp::Adjust(rng.below(MAXW + 1)),
+            2 => COp::Update { limit: Some((rng.below(3), rng.chance(1, 2))), wc: None },
+            3 => COp::KillWorker(rng.below(3)),
+            _ => COp::Drain,
+        });
+    }
+    s.clients = vec![c0, c1, vec![COp::Sleep(280), COp::Query]];
+    s
+}
+
 pub fn factory_batch(out: &str, tier: &str, seed: u64, which: &str) -> Value {
     let mut b = Batch::new(Some(out));
     let (dfs_cap, nrand, per) = if tier == "thorough" { (400usize, 3000usize, 3usize) } else { (40usize, 350usize, 2usize) };
@@ -1130,6 +1217,25 @@ pub fn factory_batch(out: &str, tier: &str, seed: u64, which: &str) -> Value {
         let mut rng = Rng(seed ^ 0x66616374);
         for _ in 0..nrand {
             let sc = rand_scn(&mut rng);
+            let mut ex = Explorer::new(Mode::Random, rng.next());
+            for _ in 0..per {
+                ex.begin_run();
+                let (evs, meta, bad) = factory_run(&sc, &mut ex);
+                let h = b.run(meta, &evs);
+                *by_routing.entry(sc.routing.name()).or_insert(0) += 1;
+                if ex.nontrivial {
+                    nontrivial.insert(h);
+                }
+                if bad {
+                    bad_runs += 1;
+                }
+            }
+        }
+    }
+    if which == "all" || which == "random" || which == "rretry" {
+        let mut rng = Rng(seed ^ 0x7265_7472);
+        for _ in 0..nrand / 4 {
+            let sc = rand_retry(&mut rng);
             let mut ex = Explorer::new(Mode::Random, rng.next());
             for _ in 0..per {
                 ex.begin_run();
